@@ -79,6 +79,9 @@ COMMANDS = [
     ("costs-csvdir-full", ["--total-costs", "-d", "{OUT}", "--print-full-values"]),
     ("summary", ["--summarize-before", "{DATE}"]),
     ("summary-annual", ["--summarize-before", "{DATE}", "--summarize-annual-gains"]),
+    ("tables-verbose", ["--verbose"]),
+    ("costs-verbose", ["--total-costs", "-v"]),
+    ("summary-verbose", ["--summarize-before", "{DATE}", "-v"]),
 ]
 
 
@@ -115,7 +118,7 @@ def run(tier):
     V = Verdict(PROP, tier)
     V.rule = ("inputs built to put weight on hash-ordered paths (>=3 affiliates with splits for all affiliates; days tying for a year's maximum cost; many "
               "securities with other-affiliate rows; securities differing only by case; a recognised header given twice) x 8 commands (tables, CSV "
-              "directory, total costs, summary, annual summary, with and without full values) x N separate processes each (N=8 quick, 40 thorough), plus M "
+              "directory, total costs, summary, annual summary, with and without full values, with and without --verbose) x N separate processes each (N=8 quick, 40 thorough), plus M "
               "in-process repetitions; one distinct stdout and one distinct output tree are required per (input, command); non-trivial = (input, command) "
               "pair; a HashMap canary in separate processes witnesses that per-process hash seeds really differ here")
     N = {"quick": 8, "thorough": 40}[tier]
